@@ -95,3 +95,34 @@ open Gen.Dop853 in
 /-- third-order estimator: `k4 − BH1·k1 − BH2·k9 − BH3·k12`, i.e. `b − b̂₃` (exact rationals, no common
     denominator needed because `killsApproxOK` rescales) -/
 def dop853BH : List QQ := [BH1_q, z, z, z, z, z, z, z, BH2_q, z, z, BH3_q]
+
+/-! ### the same tableaux with the binary64 values the code actually multiplies by -/
+open Gen.Dop853 in
+def dop853TabF : QTableau where
+  A := [[], [A21_f], [A31_f, A32_f], [A41_f, z, A43_f], [A51_f, z, A53_f, A54_f],
+        [A61_f, z, z, A64_f, A65_f], [A71_f, z, z, A74_f, A75_f, A76_f],
+        [A81_f, z, z, A84_f, A85_f, A86_f, A87_f], [A91_f, z, z, A94_f, A95_f, A96_f, A97_f, A98_f],
+        [A101_f, z, z, A104_f, A105_f, A106_f, A107_f, A108_f, A109_f],
+        [A111_f, z, z, A114_f, A115_f, A116_f, A117_f, A118_f, A119_f, A1110_f],
+        [A121_f, z, z, A124_f, A125_f, A126_f, A127_f, A128_f, A129_f, A1210_f, A1211_f]]
+  b := [B1_f, z, z, z, z, B6_f, B7_f, B8_f, B9_f, B10_f, B11_f, B12_f]
+  c := [z, C2_f, C3_f, C4_f, C5_f, C6_f, C7_f, C8_f, C9_f, C10_f, C11_f, one_q]
+
+open Gen.Dopri5 in
+def dopri5TabF : QTableau where
+  A := [[], [A21_f], [A31_f, A32_f], [A41_f, A42_f, A43_f], [A51_f, A52_f, A53_f, A54_f],
+        [A61_f, A62_f, A63_f, A64_f, A65_f], [A71_f, z, A73_f, A74_f, A75_f, A76_f]]
+  b := [A71_f, z, A73_f, A74_f, A75_f, A76_f, z]
+  c := [z, C2_f, C3_f, C4_f, C5_f, one_q, one_q]
+
+open Gen in
+def rk23TabF : QTableau where
+  A := [[], [Rk23.A21_f], [z, Rk23.A32_f], [Rk23.B1_f, Rk23.B2_f, Rk23.B3_f]]
+  b := [Rk23.B1_f, Rk23.B2_f, Rk23.B3_f, z]
+  c := [z, Rk23.C2_f, Rk23.C3_f, one_q]
+
+open Gen in
+def rk4TabF : QTableau where
+  A := [[], [Rk4.A21_f], [z, Rk4.A32_f], [z, z, Rk4.A43_f]]
+  b := [Rk4.B1_f, Rk4.B2_f, Rk4.B3_f, Rk4.B4_f]
+  c := [z, Rk4.C2_f, Rk4.C3_f, Rk4.C4_f]
